@@ -490,6 +490,10 @@ pub fn run(ctx: &Ctx) -> EngineResult {
     Ok(rep)
 }
 
+pub fn workers() -> Vec<(&'static str, iso::WorkerFn)> {
+    vec![("c12_nest", worker_nest as iso::WorkerFn)]
+}
+
 pub fn hash64(s: &str) -> u64 {
     let mut h: u64 = 0xcbf29ce484222325;
     for b in s.bytes() {
